@@ -293,6 +293,16 @@ def _inlinable(fi):
         return ('value', one[:-1], one[-1].value)
     if not rets:
         return ('void', body, None)
+    if len(rets) == 1 and rets[0] is not body[-1] and isinstance(body[-1], ast.Raise) and isinstance(rets[0].value, ast.Name) and \
+            rets[0].value.id in params:
+        # a checking pass-through: `if ok: return p` ... `raise E`  ==  `if not ok: ... raise E` and then p itself
+        for j, s in enumerate(body):
+            if isinstance(s, ast.If) and not s.orelse and len(s.body) == 1 and s.body[0] is rets[0]:
+                guard = ast.If(test=ast.UnaryOp(op=ast.Not(), operand=s.test), body=body[j + 1:], orelse=[])
+                ast.copy_location(guard, s)
+                ast.fix_missing_locations(guard)
+                return ('identity', body[:j] + [guard], rets[0].value.id)
+        return None
     if len(rets) == 1 and rets[0] is body[-1] and isinstance(rets[0].value, ast.Name) and rets[0].value.id in params and len(body) > 1:
         return ('identity', body[:-1], rets[0].value.id)
     if len(rets) == 1 and rets[0] is body[-1] and rets[0].value is not None and (len(body) > 1 or _OPTS["allow_anchors"]):
